@@ -36,7 +36,8 @@ class Spec:
         self.traces = {}      # root_key -> dict(trace, sampled, cancelled, commit_pos)
         self.expected = []    # expected delivered records
         self.ctx_obs = []     # (pos, expected ctx | None)
-        self.closure_obs = []  # (pos, expected invoked)
+        self.closure_obs = []
+        self.elapsed_obs = []   # (position, is the span recording?)  # (pos, expected invoked)
         self.nroots = 0
         self.pos = 0
         self.unspecified = set()   # names of records whose attachments are not specified
@@ -176,7 +177,10 @@ class Spec:
             for p in ([] if a[2] == "_" else a[2].split(",")):
                 if self.spans[p] is not None:
                     items += self.issue(self.spans[p])
-            self.new_span(v, name, items)
+            if items:
+                self.new_span(v, name, items)
+            else:
+                self.spans[v] = None      # derived only from no-op spans: a no-op span (D16)
         elif op == "childLocal":
             v, name = a[0], unhx(a[1])
             tok = self.cur_token(t)
@@ -217,7 +221,7 @@ class Spec:
                 if sp["root_key"] != "U" and self.cancelable:
                     self.traces[sp["root_key"]]["cancelled"] = True
         elif op == "elapsed":
-            pass
+            self.elapsed_obs.append((pos, self.spans[a[0]] is not None))
         elif op == "ctxOf":
             sp = self.spans[a[0]]
             exp = None
